@@ -252,7 +252,10 @@ def run_check(prop, tier, seed):
                 continue
             seen_v.add((name, v["id"]))
             rp = os.path.join(outdir, f"{name}.{hashlib.sha1(v['id'].encode()).hexdigest()[:8]}.replay.json")
-            model = realise(v.get("model") or {}, (v.get("extra") or {}).get("hashes"))
+            full = dict(v.get("model") or {})
+            for inp in (v.get("inputs") or []):
+                full.setdefault(inp["Name"], "0")  # unconstrained inputs take 0, natively too: make that explicit for the realiser
+            model = realise(full, (v.get("extra") or {}).get("hashes"))
             json.dump({"property": prop, "dir": d, "entry": name, "assert_id": v["id"], "kind": v["kind"], "msg": v.get("msg", ""),
                        "model": model, "solver_model": v.get("model") or {}, "choices": v.get("choices") or [], "decisions": v.get("decisions", ""),
                        "stack": v.get("stack") or []},
